@@ -268,7 +268,7 @@ fn sig_set(v: &[Violation]) -> Vec<String> {
     v.iter().map(|x| x.signature()).collect()
 }
 
-fn minimise(ctx: &Ctx, eng: &Engine, sc: &Value, sig: &str, budget: &mut u32) -> (Value, Violation, u32) {
+fn minimise(ctx: &Ctx, eng: &Engine, sc: &Value, sig: &str, budget: &mut u32, deadline: Instant) -> (Value, Violation, u32) {
     let mut cur = sc.clone();
     let mut steps = 0u32;
     let first = exec_scenario(ctx, eng, &cur, "min-base");
@@ -276,7 +276,8 @@ fn minimise(ctx: &Ctx, eng: &Engine, sc: &Value, sig: &str, budget: &mut u32) ->
     loop {
         let mut improved = false;
         for (ci, cand) in (eng.shrink)(&cur).into_iter().enumerate() {
-            if *budget == 0 {
+            if *budget == 0 || Instant::now() >= deadline {
+                *budget = 0;
                 break;
             }
             *budget -= 1;
@@ -389,6 +390,9 @@ pub fn run(ctx: &Ctx, id: &str, opts: &Opts) -> i32 {
     let mut unknown = 0u64;
     let mut known_seen: Vec<(String, String)> = vec![];
     let mut budget: u32 = if opts.no_shrink { 0 } else { 600 };
+    // minimisation is bounded in executions and in wall-clock time (a hanging program under test makes
+    // every candidate cost a watchdog period)
+    let min_deadline = Instant::now() + std::time::Duration::from_secs(if ctx.tier == Tier::Quick { 150 } else { 600 });
     let nviol = viols.len();
     for (i, sc, v) in viols {
         let sig = v.signature();
@@ -409,7 +413,7 @@ pub fn run(ctx: &Ctx, id: &str, opts: &Opts) -> i32 {
                 o.insert("only".into(), json!(nar));
             }
         }
-        let (msc, mv, steps) = if budget > 0 { minimise(ctx, &eng, &sc, &sig, &mut budget) } else { (sc.clone(), v.clone(), 0) };
+        let (msc, mv, steps) = if budget > 0 { minimise(ctx, &eng, &sc, &sig, &mut budget, min_deadline) } else { (sc.clone(), v.clone(), 0) };
         if let Some(f) = findings::matching(&known, &mv, &msc) {
             if !known_seen.iter().any(|(k, _)| k == &f.id) {
                 known_seen.push((f.id.clone(), f.description.clone()));
